@@ -6,7 +6,6 @@
 use crate::c02::*;
 use crate::coqfmt::*;
 use crate::exec3::*;
-use crate::gen::*;
 use crate::export::*;
 use crate::mpcgen::*;
 use crate::out::Out;
@@ -199,7 +198,46 @@ fn maskcheck_cases(tier: &str, seed: u64, out: &mut Out) {
             let n_deliv = c.g.get_nodes().iter().filter(|n| sends_of(n).iter().any(|(s, r)| *r == observer && *s != observer)).count();
             out.stat(&format!("maskcheck-deliveries-to-observer:{}", std::cmp::min(n_deliv, 12)));
             let desc = json!({"ops": ops_desc, "st": scalar(st), "owners": owners.iter().map(status_str).collect::<Vec<_>>(), "outputs": outs.iter().map(status_str).collect::<Vec<_>>(), "inline": mname, "observer": observer, "compiled_nodes": c.g.get_nodes().len(), "deliveries": n_deliv});
-            out.case("T:maskcheck", format!("isSome (maskcheck {} {} {} {})", cfg, observer, nodes, oid), "true".into(), desc, private && n_deliv > 0);
+            out.case("T:maskcheck", format!("isSome (maskcheck {} {} {} {})", cfg, observer, nodes, oid), "true".into(), desc.clone(), private && n_deliv > 0);
+            // the view used by the theorem contains everything C02's knowledge analysis gives the observer
+            out.case("T:viewcover", format!("viewcover {} {} {}", cfg, observer, nodes), "true".into(), desc, private && n_deliv > 0);
+        }
+        // mutants of the exported graph (the property's own examples): the checker must reject
+        let gnodes = c.g.get_nodes();
+        let node_strs: Vec<String> = gnodes.iter().map(node_coq).collect();
+        let mut input_no = 0usize;
+        for n in gnodes.iter() {
+            if !matches!(n.get_operation(), Operation::Input(_)) { continue; }
+            let j = input_no;
+            input_no += 1;
+            let q = match owners.get(j) { Some(IOStatus::Party(q)) => *q, _ => continue };
+            let iid = n.get_id();
+            // share_q = Add [alpha_q, input] with alpha_q = Subtract [PRF, PRF], then NOP + Send(q, q-1)
+            let add = gnodes.iter().find(|m| matches!(m.get_operation(), Operation::Add) && m.get_node_dependencies().len() == 2 && m.get_node_dependencies()[1].get_id() == iid && matches!(m.get_node_dependencies()[0].get_operation(), Operation::Subtract));
+            let add = match add { Some(a) => a.clone(), None => { out.stat("mutant:share-pattern-not-found"); continue; } };
+            let alpha = add.get_node_dependencies()[0].clone();
+            let nop = gnodes.iter().find(|m| matches!(m.get_operation(), Operation::NOP) && m.get_node_dependencies()[0].get_id() == add.get_id() && sends_of(m).contains(&(q, (q + 2) % 3)));
+            let nop = match nop { Some(a) => a.clone(), None => { out.stat("mutant:share-pattern-not-found"); continue; } };
+            let t = alpha.get_type().unwrap();
+            // (A) the zero-sharing mask of the owner's share replaced by zeros: party q-1 receives x itself
+            let obs_a = (q + 2) % 3;
+            if !outs.contains(&IOStatus::Party(obs_a)) {
+                let mut ns = node_strs.clone();
+                ns[alpha.get_id() as usize] = format!("(mkNode (OZeros {}) [] [] [] {})", ty(&t), ty(&t));
+                let desc = json!({"mutant": "mask-replaced-by-zeros", "ops": ops_desc, "owners": owners.iter().map(status_str).collect::<Vec<_>>(), "outputs": outs.iter().map(status_str).collect::<Vec<_>>(), "input": j, "mutated_node": alpha.get_id(), "observer": obs_a});
+                out.case("T:maskcheck-mutant", format!("isSome (maskcheck {} {} [{}] {})", cfg, obs_a, ns.join("; "), oid), "false".into(), desc, true);
+            }
+            // (B) the owner's share sent to one extra party: party q+1 then holds all three shares
+            let obs_b = (q + 1) % 3;
+            if !outs.contains(&IOStatus::Party(obs_b)) {
+                let mut ns = node_strs.clone();
+                let mut an: Vec<String> = nop.get_annotations().unwrap_or_default().iter().map(annot_coq).collect();
+                an.push(format!("(ASend {} {})", q, obs_b));
+                let deps: Vec<u64> = nop.get_node_dependencies().iter().map(|d| d.get_id()).collect();
+                ns[nop.get_id() as usize] = format!("(mkNode ONOP {} [] [{}] {})", list_u64(&deps), an.join("; "), ty(&nop.get_type().unwrap()));
+                let desc = json!({"mutant": "share-sent-to-extra-party", "ops": ops_desc, "owners": owners.iter().map(status_str).collect::<Vec<_>>(), "outputs": outs.iter().map(status_str).collect::<Vec<_>>(), "input": j, "mutated_node": nop.get_id(), "observer": obs_b});
+                out.case("T:maskcheck-mutant", format!("isSome (maskcheck {} {} [{}] {})", cfg, obs_b, ns.join("; "), oid), "false".into(), desc, true);
+            }
         }
     }
 }
